@@ -212,13 +212,19 @@ def _feed(h, obj):
         _feed(h, [str(c) for c in obj.columns])
         _feed(h, np.asarray(obj.index))
         _feed(h, obj.to_numpy())
+        if _WITH_AXIS_NAMES[0]:
+            h.update(repr((obj.index.name, obj.columns.name)).encode())
     elif isinstance(obj, pd.Series):
         h.update(b"SE")
         _feed(h, [str(c) for c in obj.index])
         _feed(h, None if obj.name is None else repr(obj.name))
         _feed(h, obj.to_numpy())
+        if _WITH_AXIS_NAMES[0]:
+            h.update(repr(obj.index.name).encode())
     elif isinstance(obj, pd.Index):
         _feed(h, np.asarray(obj))
+        if _WITH_AXIS_NAMES[0]:
+            h.update(repr(obj.name).encode())
     elif isinstance(obj, np.ndarray):
         h.update(b"A")
         h.update(str(obj.dtype).encode())
@@ -281,6 +287,17 @@ def _feed(h, obj):
 
 _depth = [0]
 _SKIP_ATTRS = {'spy_log', 'spy_delivery'}
+# axis names (index.name, columns.name) are metadata a caller owns too; they are part of
+# the ARGUMENT SNAPSHOT digests only (result digests stay independent of them)
+_WITH_AXIS_NAMES = [False]
+
+
+def snapshot_digest(*objs):
+    _WITH_AXIS_NAMES[0] = True
+    try:
+        return digest(*objs)
+    finally:
+        _WITH_AXIS_NAMES[0] = False
 
 
 def integrator_state(obj):
